@@ -12,7 +12,7 @@ import (
 func init() {
 	Drivers["C10"] = driveC10
 	Levels["C10"] = "fault_enumeration"
-	Rules["C10"] = "one run = one document universe (<=4 documents, some replaced by documents that fail the resolver's checks: bad regexp, $id with fragment, unsupported $schema, non-schema JSON, dangling reference; or a 60-deep chain of documents) under an enumerated set of loader behaviours: for every call index k up to the number of healthy calls + 1 and every behaviour in {error, (nil,nil), the root document again, a valid but wrong document, the same *Schema pointer as an earlier call}, plus every single failing document; each Resolve, and Validate + ApplyDefaults of pooled instances on every Resolved that was obtained, must return a value or an error within the step budget. The same recover+budget oracle wraps every operation of the other properties' workloads, which this check also runs. Non-trivial = a fault fired while a reference was in flight (not on the first and not after the last request). Distinct = hash(universe, fault plan set) x order-vector hash."
+	Rules["C10"] = "one run = one document universe (<=4 documents, some replaced by documents that fail the resolver's checks: bad regexp, $id with fragment, unsupported $schema, non-schema JSON, dangling reference; or a 60-deep chain of documents) under an enumerated set of loader behaviours: for every call index k up to the number of healthy calls + 1 and every behaviour in {error, (nil,nil), the root document again, a valid but wrong document, a document that declares the root's $id, the same *Schema pointer as an earlier call}, plus every single failing document; each Resolve, and Validate + ApplyDefaults of pooled instances on every Resolved that was obtained, must return a value or an error within the step budget. The same recover+budget oracle wraps every operation of the other properties' workloads, which this check also runs. Non-trivial = a fault fired while a reference was in flight (not on the first and not after the last request). Distinct = hash(universe, fault plan set) x order-vector hash."
 	Assumptions["C10"] = append([]string{
 		"decided: the fault-sequence clause (loader behaviours) and every operation executed by the other simulated workloads; NOT decided: robustness on arbitrary bytes, arbitrary in-memory Schema graphs, arbitrary Go representations of instances, arbitrary types (pure functions of the input)",
 		"a hang is a step-budget overrun (4*10^5 yields per operation, 5*10^6 for the deep chain; the largest legitimate operation in the workloads uses about 10^5); instances are canonical encoding/json values held through a pointer",
@@ -50,7 +50,7 @@ func driveC10(c *Ctx) {
 		u = deepChain(60)
 		c.Probe("deep-chain")
 	} else {
-		u = GenUniverse(c, UniOpts{Draft7: c.W(4) == 0, MaxDocs: 4, Dangling: c.W(6) == 0})
+		u = GenUniverse(c, UniOpts{Draft7: c.W(4) == 0, MaxDocs: 4, Dangling: c.W(6) == 0, RootInPlace: c.W(2) == 0})
 		for i := 1; i < len(u.Docs); i++ {
 			if c.W(3) == 0 {
 				b := pick(c, badDocs)
@@ -122,9 +122,21 @@ func driveC10(c *Ctx) {
 		c.Nontrivial = true
 		return
 	}
+	// Serving the root document again for a document that the root refers to IN PLACE makes the
+	// copy refer to itself in place: a universe whose recursion does not pass through instance
+	// descent, which the property excludes.
+	selfOK := true
+	for _, nd := range u.Docs[0].Nodes {
+		if nd.InPlace != nil && nd.InPlace.To != nil && nd.InPlace.To.Doc != nd.Doc {
+			selfOK = false
+		}
+	}
 	for k := 1; k <= n+1 && k <= 8; k++ {
 		run(&FaultPlan{FailCall: k}, fmt.Sprintf("call %d errs", k))
-		for _, b := range []string{"nilnil", "self", "wrong", "shared"} {
+		for _, b := range []string{"nilnil", "self", "wrong", "shared", "same-id"} {
+			if b == "self" && !selfOK {
+				continue
+			}
 			run(&FaultPlan{Special: map[int]string{k: b}}, fmt.Sprintf("call %d: %s", k, b))
 		}
 	}
